@@ -116,6 +116,10 @@ class Generator(SchemaVisitor[Any]):
         else:
             alphabet = STR_ALPHABET
 
+        if not alphabet:
+            # nothing can be drawn from an empty alphabet: only the substring (or "") is left
+            length = len(schema.props.substr) if (schema.props.substr is not Nil) else 0
+
         if schema.props.substr is not Nil:
             substr = schema.props.substr
             generated = self._random.random_str(length - len(substr), alphabet)
